@@ -359,15 +359,12 @@ Flatten(ss) == LET F[k \in 0..Len(ss)] == IF k = 0 THEN <<>> ELSE F[k - 1] \o ss
 RunMeans(c, r) ==
     LET clipScores  == Present([k \in 1..Len(r.clips) |-> r.clips[k].score])
         matchScores(k) == Present([x \in 1..Len(r.clips[k].matches) |-> r.clips[k].matches[x].score])
-        allMatch == Flatten([k \in 1..Len(r.clips) |-> matchScores(k)])
-    IN  \* a clip evaluation's score is the mean of its matches' scores (nothing to average: no demand)
+    IN  \* match -> clip -> evaluation, one mean per level (NOT a pooled mean over all matches: clips count equally)
+        \* a clip evaluation's score is the mean of its matches' scores (nothing to average: no demand)
         /\ \A k \in DOMAIN r.clips :
               Len(matchScores(k)) > 0 => (~IsNone(r.clips[k].score) /\ IsMean(Some(r.clips[k].score), matchScores(k)))
-        \* the evaluation's score is the mean of the clip scores (or, read flat, of all match scores)
-        /\ Len(clipScores) > 0 =>
-              /\ ~IsNone(r.score)
-              /\ \/ IsMean(Some(r.score), clipScores)
-                 \/ Len(allMatch) > 0 /\ IsMean(Some(r.score), allMatch)
+        \* the evaluation's score is the mean of the clip scores that exist
+        /\ Len(clipScores) > 0 => (~IsNone(r.score) /\ IsMean(Some(r.score), clipScores))
 
 OptClose(a, b) == (IsNone(a) /\ IsNone(b)) \/ (~IsNone(a) /\ ~IsNone(b) /\ LClose(Some(a), Some(b)))
 \* same metric lists: position by position by `key` ("name" between two runs of the code)
